@@ -1,7 +1,8 @@
 ------------------------------------- MODULE Trace_BinCounts -------------------------------------
 (* Observations of the real bamBinCounts entry points judged by the P-level definitions of        *)
 (* BinCounts.tla (Qualifies, BinOf, ExpectedMatrixOver).                                           *)
-(*  {"ev":"bam","tid","contigs":[..],"lens":[..],"recs":[{record}..]}     BAM the next runs read    *)
+(*  {"ev":"bam","tid","contigs":[..],"lens":[..],"nfiles":n,"recs":[{record}..]}  the BAM(s) the next   *)
+(*        runs read; record field "file" = index of the library in the list given to generate_commands *)
 (*  {"ev":"run","tid","group":g,"cfg":{bin,bpj,mfs,minmq,dedup,kwargs,usekey},"pool","threads",    *)
 (*         "raised":"", "counts":[{"bin":[key,contig,start,end],"sample":s,"n":k}]}                 *)
 (*        obtain_counts(generate_commands(..)); runs of one group differ only in bins_per_job,      *)
@@ -19,7 +20,8 @@ GotMatrix(e) == LET cells == { << e.counts[k].bin, e.counts[k].sample >> : k \in
                 IN [cell \in cells |-> LET g(x) == IF << x.bin, x.sample >> = cell THEN x.n ELSE 0 IN SumSeqF(e.counts, g)]
 At(m, cell) == IF cell \in DOMAIN m THEN m[cell] ELSE 0
 
-RunPre(e, b) == IF \E k \in DOMAIN b.recs : Qualifies(b.recs[k], e.cfg) /\ ~InPrecondition(b.recs[k], e.cfg, LenIn(b, b.recs[k].contig))
+RunPre(e, b) == IF ~CellsDisjoint(b.recs) THEN "same_cell_in_several_bams_outside_the_statement"
+                ELSE IF \E k \in DOMAIN b.recs : Qualifies(b.recs[k], e.cfg) /\ ~InPrecondition(b.recs[k], e.cfg, LenIn(b, b.recs[k].contig))
                 THEN "record_outside_precondition_site_beyond_max_fragment_size_or_contig" ELSE "ok"
 
 RunVerdict(e, b, r0) ==
